@@ -144,6 +144,11 @@ func init() {
 			h("cont.H_Reserved", map[string]int{"order_schemes": 1}, map[string]int{"order_schemes": 1}, []string{"tried"}, 10, "ten ways of naming a built-in type in a registration (primary type, As, secondary return value, result-object field, with Name, with Group): all must be rejected, and the built-ins still resolve to the real thing"),
 		}},
 	)
+	properties = append(properties,
+		propertySpec{ID: "C20", Harnesses: []harnessSpec{
+			h("cont.H_Modules", map[string]int{"order_schemes": 1}, map[string]int{"order_schemes": 2}, []string{"failed", "succeeded"}, 30, "three module-tree shapes (nesting depth 1..3, bare entries next to modules, nil entries) over four entries whose kinds are symbolic {valid add, keyed add, rejected add (nil constructor), duplicate add, nil, Remove[T], RemoveKeyed[T]}; a twin collection receives the flattened direct calls; verdicts, ModuleError chain (names outermost first, once per enclosing module), reachability of the cause, queries, Build verdict, constructor invocations and resolution classes compared"),
+		}},
+	)
 	hc := h("cont.H_Conc", conc(1), conc(1), []string{"both_done"}, 10, concDesc)
 	hcb := h("cont.H_CloseInCallback", map[string]int{"order_schemes": 1}, map[string]int{"order_schemes": 2}, []string{"callback_closed"}, 10, cbDesc)
 	properties = append(properties,
